@@ -373,7 +373,7 @@ class WebSocketApp:
             if reconnecting and self.sock:
                 self.sock.shutdown()
 
-            self.sock = WebSocket(
+            sock = self.sock = WebSocket(
                 self.get_mask_key,
                 sockopt=sockopt,
                 sslopt=sslopt,
@@ -415,7 +415,9 @@ class WebSocketApp:
                     self._callback(self.on_open)
 
                 if not self.keep_running or not self.sock:
-                    # close() was called from the open callback
+                    # close() was called from the open callback, or from
+                    # another thread while the connection was being made
+                    sock.shutdown()
                     teardown()
                     return
 
